@@ -185,63 +185,11 @@ func c01(w *core.World, r *core.Report) {
 		if A != nil && H != nil && R != nil {
 			r.Check(!core.CanFollow(H, A) && !core.CanFollow(R, A), "PIPELINE-ORDER", core.Site(low, "no intent content added after alternatives/running"), w.InstrPos(A), "intent content must be complete before alternatives and running are loaded")
 		}
-		// the argument handed to loadIntendedStoreHighestPrio is ONE PathSet made before the loop, joined with old and new content
-		if H != nil {
-			args := core.CallArgs(H)
-			var acc *ssa.Call
-			single := true
-			if len(args) >= 4 {
-				for _, o := range core.Origins(args[3]) {
-					if c, ok := o.(*ssa.Call); ok && core.CalleeIs(c, "tree.NewPathSet") && acc == nil {
-						acc = c
-					} else {
-						single = false
-					}
-				}
-			}
-			r.Check(acc != nil && single, "PIPELINE-ORDER", core.Site(low, "involved paths accumulator"), w.InstrPos(H), "the involved-paths set handed to loadIntendedStoreHighestPrio must be the one accumulator created before the loop (not re-assigned per intent)")
-			if acc != nil {
-				joinedOld, joinedNew := false, false
-				for _, j := range core.CallsTo(low, "tree.PathSet.Join") {
-					if !core.HasOrigin(core.CallRecv(j), acc) {
-						continue
-					}
-					if !core.InstrBefore(j, H) && !core.CanFollow(j, H) {
-						continue
-					}
-					ja := core.CallArgs(j)
-					if len(ja) != 1 {
-						continue
-					}
-					for _, oc := range core.OriginCalls(ja[0]) {
-						if !core.CalleeIs(oc, "tree.UpdateSlice.ToPathSet") {
-							continue
-						}
-						for _, o2 := range core.OriginCalls(core.CallRecv(oc)) {
-							if core.CalleeIs(o2, "tree.RootEntry.LoadIntendedStoreOwnerData") {
-								joinedOld = true
-							}
-							if core.CalleeIs(o2, "datastore/types.TransactionIntent.GetUpdates") {
-								joinedNew = true
-							}
-						}
-					}
-				}
-				r.Check(joinedOld, "PIPELINE-ORDER", core.Site(low, "involved paths include old content"), w.InstrPos(H), "paths of the owner's previous content must be joined into the involved paths (a shrunk/deleted intent uncovers shadowed values there)")
-				r.Check(joinedNew, "PIPELINE-ORDER", core.Site(low, "involved paths include new content"), w.InstrPos(H), "paths of the new content must be joined into the involved paths")
-				// skip list: the transaction's own intents
-				if len(args) >= 5 {
-					ok := false
-					for _, oc := range core.OriginCalls(args[4]) {
-						if core.CalleeIs(oc, "datastore/types.Transaction.GetIntentNames") {
-							ok = true
-						}
-					}
-					r.Check(ok, "PIPELINE-ORDER", core.Site(low, "alternatives skip the transaction's intents"), w.InstrPos(H), "stored entries of the intents being changed must not be re-loaded as alternatives")
-				}
-			}
-		}
+		ruleInvolvedPaths(w, r, low, "PIPELINE-ORDER")
 	}
+
+	// ---- OLD-PRIO-DELETE (shared with C02): a version left under the old priority stays live for the merge
+	ruleOldPrioDelete(w, r, low)
 
 	// ---- SINGLE-WRITER
 	r.Rule("SINGLE-WRITER", 3, "who-may-call over the whole repository: target.Target.Set only from Datastore.applyIntent; applyIntent only from lowlevelTransactionSet and replaceIntent; cache.Client.Modify with Store_INTENDED only from lowlevelTransactionSet.")
@@ -302,4 +250,67 @@ func c01(w *core.World, r *core.Report) {
 	for _, t := range c01Consults {
 		consultsInReturn(w, r, "CONSULTS", w.Func(t.Pkg, t.Recv, t.Name), t.Reqs)
 	}
+}
+
+// ruleInvolvedPaths: the set of paths for which alternatives are loaded is one accumulator over all intents
+// (shared by C01.PIPELINE-ORDER and C09.INVOLVED-PATHS).
+func ruleInvolvedPaths(w *core.World, r *core.Report, low *ssa.Function, rule string) {
+	H := firstCall(low, "datastore.loadIntendedStoreHighestPrio")
+	// the argument handed to loadIntendedStoreHighestPrio is ONE PathSet made before the loop, joined with old and new content
+	if H != nil {
+		args := core.CallArgs(H)
+		var acc *ssa.Call
+		single := true
+		if len(args) >= 4 {
+			for _, o := range core.Origins(args[3]) {
+				if c, ok := o.(*ssa.Call); ok && core.CalleeIs(c, "tree.NewPathSet") && acc == nil {
+					acc = c
+				} else {
+					single = false
+				}
+			}
+		}
+		r.Check(acc != nil && single, rule, core.Site(low, "involved paths accumulator"), w.InstrPos(H), "the involved-paths set handed to loadIntendedStoreHighestPrio must be the one accumulator created before the loop (not re-assigned per intent)")
+		if acc != nil {
+			joinedOld, joinedNew := false, false
+			for _, j := range core.CallsTo(low, "tree.PathSet.Join") {
+				if !core.HasOrigin(core.CallRecv(j), acc) {
+					continue
+				}
+				if !core.InstrBefore(j, H) && !core.CanFollow(j, H) {
+					continue
+				}
+				ja := core.CallArgs(j)
+				if len(ja) != 1 {
+					continue
+				}
+				for _, oc := range core.OriginCalls(ja[0]) {
+					if !core.CalleeIs(oc, "tree.UpdateSlice.ToPathSet") {
+						continue
+					}
+					for _, o2 := range core.OriginCalls(core.CallRecv(oc)) {
+						if core.CalleeIs(o2, "tree.RootEntry.LoadIntendedStoreOwnerData") {
+							joinedOld = true
+						}
+						if core.CalleeIs(o2, "datastore/types.TransactionIntent.GetUpdates") {
+							joinedNew = true
+						}
+					}
+				}
+			}
+			r.Check(joinedOld, rule, core.Site(low, "involved paths include old content"), w.InstrPos(H), "paths of the owner's previous content must be joined into the involved paths (a shrunk/deleted intent uncovers shadowed values there)")
+			r.Check(joinedNew, rule, core.Site(low, "involved paths include new content"), w.InstrPos(H), "paths of the new content must be joined into the involved paths")
+			// skip list: the transaction's own intents
+			if len(args) >= 5 {
+				ok := false
+				for _, oc := range core.OriginCalls(args[4]) {
+					if core.CalleeIs(oc, "datastore/types.Transaction.GetIntentNames") {
+						ok = true
+					}
+				}
+				r.Check(ok, rule, core.Site(low, "alternatives skip the transaction's intents"), w.InstrPos(H), "stored entries of the intents being changed must not be re-loaded as alternatives")
+			}
+		}
+	}
+
 }
